@@ -143,18 +143,33 @@ package conf
 //@   requires confOK(c)
 //@   noframe
 //@   allocates
+//@   site getDomain#0 assert [C17] $0 == c.root && $1 == path
+//@   site getDomain#0 ghostafter c.glen = len($ret0)
+//@   site getDomain#0 ghostafter c.gerr = $ret1
+//@   ensures [C17] c.gerr != nil ==> len(result) == 0
+//@   ensures [C17] c.gerr == nil ==> len(result) == c.glen
 //@   safety [C17]
 //
 //@ func (*Conf).GetDomainKey
 //@   requires confOK(c)
 //@   noframe
 //@   allocates
+//@   site getDomainKey#0 assert [C17] $0 == c.root && $1 == path
+//@   site getDomainKey#0 ghostafter c.glen = len($ret0)
+//@   site getDomainKey#0 ghostafter c.gerr = $ret1
+//@   ensures [C17] c.gerr != nil ==> len(result) == 0
+//@   ensures [C17] c.gerr == nil ==> len(result) == c.glen
 //@   safety [C17]
 //
 //@ func (*Conf).GetDomainLine
 //@   requires confOK(c)
 //@   noframe
 //@   allocates
+//@   site getDomainLine#0 assert [C17] $0 == c.root && $1 == path
+//@   site getDomainLine#0 ghostafter c.glen = len($ret0)
+//@   site getDomainLine#0 ghostafter c.gerr = $ret1
+//@   ensures [C17] c.gerr != nil ==> len(result) == 0
+//@   ensures [C17] c.gerr == nil ==> len(result) == c.glen
 //@   safety [C17]
 //
 //@ func (*Conf).GetMap
